@@ -13,7 +13,7 @@ def rust_lit(cps):
 
 
 def variant_src(i, v):
-    f, d, attrs = v[0] == "1", v[1] == "1", [a for a in v[2:].split(";") if a]
+    f, d, attrs = v[0] == "1", v[1], [a for a in v[2:].split(";") if a]
     out = []
     for a in attrs:
         if a[0] == "L":
@@ -27,8 +27,9 @@ def variant_src(i, v):
     name = "V%d" % i
     if f:
         name += "(u8)"
-    if d:
-        name += " = %d" % (i + 5)
+    # an explicit discriminant in any form: literal, constant, expression, parenthesised, cast
+    if d != "0":
+        name += " = " + {"1": "%d" % (i + 5), "2": "super::FIRST", "3": "1 << %d" % (i + 2), "4": "(%d)" % (i + 5), "5": "b'+' as u32"}[d]
     out.append("    %s," % name)
     return out
 
@@ -60,7 +61,7 @@ def spec_line(case):
     texts = []
     for v in vs:
         attrs = [a for a in v[2:].split(";") if a]
-        if v[0] == "1" or v[1] == "1" or len(attrs) > 1 or any(a[0] != "L" for a in attrs):
+        if v[0] == "1" or v[1] != "0" or len(attrs) > 1 or any(a[0] != "L" for a in attrs):
             ok = False
         texts.append(("=" + attrs[0][1:]) if attrs and attrs[0][0] == "L" else "-")
     if not ok:
@@ -91,7 +92,7 @@ class C17(Property):
     def cases(self, tier, seed):
         res = []
         base = ["V e u32 | 00 00L43; 00", "V e u32 | 00L;", "V e - | 00", "V e u16 | 00", "V e C | 00", "V e C,u32 | 00",
-                "V s u32 |", "V u u32 |", "V e u32 | 10", "V e u32 | 01", "V e u32 | 00N;", "V e u32 | 00P;", "V e u32 | 00V;",
+                "V s u32 |", "V u u32 |", "V e u32 | 10", "V e u32 | 01", "V e u32 | 02", "V e u32 | 03", "V e u32 | 04", "V e u32 | 05", "V e u32 | 00 03 00", "V e u32 | 00L43; 02", "V e u32 | 00N;", "V e u32 | 00P;", "V e u32 | 00V;",
                 "V e u32 | 00L43;L43;", "V e u32 | 00L43;L45;", "V e u32 | 00 10L43;", "V e u32 | 00L43; 00L43;"]
         for c in base:
             res.append(("corpus", c))
@@ -114,7 +115,7 @@ class C17(Property):
             elif r == 2:
                 vs[j] = "10" + vs[j][2:]
             elif r == 3:
-                vs[j] = "01" + vs[j][2:]
+                vs[j] = "0" + rng.choice("12345") + vs[j][2:]
             elif r == 4:
                 vs[j] = "00" + rng.choice(["N;", "P;", "V;"])
             elif r == 5:
@@ -128,7 +129,7 @@ class C17(Property):
 
     def custom_impl(self, cases, profile):
         # 1. classify: all definitions in one library crate, compiled once with JSON diagnostics
-        src, ranges = ["#![allow(dead_code, unused)]"], []
+        src, ranges = ["#![allow(dead_code, unused)]", "pub const FIRST: u32 = 5;"], []
         for i, c in enumerate(cases):
             lines = def_src(i, c)
             ranges.append((len(src) + 1, len(src) + len(lines)))
@@ -147,7 +148,7 @@ class C17(Property):
         # 2. run the accepted ones
         results = {}
         if accepted:
-            src = ["#![allow(dead_code, unused)]", "use cstree::{RawSyntaxKind, Syntax};", "use std::panic::catch_unwind;"]
+            src = ["#![allow(dead_code, unused)]", "pub const FIRST: u32 = 5;", "use cstree::{RawSyntaxKind, Syntax};", "use std::panic::catch_unwind;"]
             for i in accepted:
                 src += def_src(i, cases[i])
             src.append("fn show<S: Syntax + std::panic::UnwindSafe + 'static>(idx: usize, variants: &[S]) {")
